@@ -176,6 +176,26 @@ pub fn run(run: &Run) {
                 run.sample(json!({"format": f.name, "value": v.show(), "text": s}));
             }
         }
+        // agreement of the harness' reference formatter with the library's (evidence, not a verdict)
+        let agree: u64 = vals
+            .par_iter()
+            .map(|v| {
+                let r = quiet_catch(std::panic::AssertUnwindSafe(|| {
+                    let n = v.build();
+                    let lib = f.e.format_narsese(&n);
+                    let term_in_iteration_order = match &n {
+                        Narsese::Term(t) => R::of_term(t),
+                        Narsese::Sentence(s) => R::of_term(narsese::api::GetTerm::get_term(s)),
+                        Narsese::Task(t) => R::of_term(narsese::api::GetTerm::get_term(t)),
+                    };
+                    let v2 = V { term: term_in_iteration_order, ..v.clone() };
+                    crate::emit::strip_ws(&crate::emit::join(&crate::emit::value(&f, &v2), "")) == crate::emit::strip_ws(&lib)
+                }));
+                matches!(r, Ok(true)) as u64
+            })
+            .sum();
+        run.count(&format!("reference_formatter_agrees_{}", f.name), agree);
+        run.count(&format!("reference_formatter_disagrees_{}", f.name), vals.len() as u64 - agree);
         vals.par_iter().for_each(|v| {
             run.eval(1);
             if let Err(msg) = crate::watch::case(&v.show(), || case(&f, v)) {
